@@ -290,7 +290,15 @@ def reconcile_states(cfg, ops, lines):
         return lines
     binary = harness_bin(cfg)
     observable = False
-    for i in mism[:40]:
+    # (bounded: a dozen states, histories of at most 150 lines - the systematic stage alone has thousands of lines, and a
+    # parser whose state cannot be read differs on every one of them)
+    last_n, cur = [], 0
+    for j, o in enumerate(ops):
+        if o.startswith("N "):
+            cur = j
+        last_n.append(cur)
+    short = [i for i in mism if i - last_n[i] <= 150]
+    for i in (short[:8] + short[len(short) // 2:len(short) // 2 + 4] if short else mism[:4]):
         slot = ops[i].split(" ")[1]
         j = i
         while j > 0 and ops[j] != f"N {slot}":
@@ -298,7 +306,7 @@ def reconcile_states(cfg, ops, lines):
         hist = [o for o in ops[j:i + 1] if o == f"N {slot}" or (o.startswith("L ") and o.split(" ")[1] == slot)]
         if not hist or hist[0] != f"N {slot}":
             hist = [f"N {slot}"] + hist
-        if len(hist) > 700:
+        if len(hist) > 160:
             continue
         stream, marks = [], []
         for pl in _probe_lines(_st(lines[i]), _st(model[i])):
